@@ -1,6 +1,11 @@
 """C05 - decimal amount arithmetic is exact with round-half-away-from-zero.
 Tie: correspondence of num (Go) with Num/Amount.v (extracted) on the same cases; inside the
-property's domain any difference is itself the failing input (P = "Go result = spec result")."""
+property's domain any difference is itself the failing input (P = "Go result = spec result").
+Second tie: the implementation-faithful model Num/AmountImpl.v (int64 wrap + Flocq binary64,
+`num impl_<op>`) on a sample of the same cases and on a boundary stream outside the domain
+(2^52..2^63, MinInt64, zero divisors, exponents up to 70): wherever that model is Defined the Go
+result must be the same; inside the domain the guards `num dom_<op>` of the exactness theorems
+(Props/C05.v ..._impl_exact) must hold, so Go = spec = impl there."""
 import itertools
 from vlib import *
 
@@ -20,7 +25,7 @@ def small(*zs):
 def resc_ok(v, e, to):
     if to >= e:
         return small(v, v * p10(to - e))
-    return small(v)
+    return small(v) and e - to <= 63   # intPow(10, d) wraps from d = 19 on (harmlessly) and is 0 from d = 64 on
 
 
 def in_domain(op, a, b=None, n=None, n2=None):
@@ -32,7 +37,7 @@ def in_domain(op, a, b=None, n=None, n2=None):
         return small(av, av + bv * p10(max(ae - be, 0)), av - bv * p10(max(ae - be, 0)))
     if op in ("mul", "pct_of"):
         bv, be = b
-        return small(av, bv, av * bv) and be <= 18
+        return small(av, bv, av * bv) and be <= 63
     if op == "div":
         bv, be = b
         return bv != 0 and small(av, bv, av * p10(be))
@@ -49,11 +54,12 @@ def in_domain(op, a, b=None, n=None, n2=None):
     if op == "rescale_down":
         return resc_ok(av, ae, min(n, ae))
     if op == "rescale_range":
-        return resc_ok(av, ae, max(n, ae)) and small(av * p10(max(n - ae, 0)))
+        e1 = max(n, ae)
+        return resc_ok(av, ae, e1) and resc_ok(av * p10(e1 - ae), e1, min(n2, e1))
     if op == "upscale":
         return resc_ok(av, ae, ae + n)
     if op == "downscale":
-        return small(av)
+        return resc_ok(av, ae, max(ae - n, 0))
     if op == "split":
         return n >= 1 and small(av, n, av * max(n - 1, 1))
     if op in ("negate", "abs", "pct_negate"):
@@ -71,6 +77,84 @@ def in_domain(op, a, b=None, n=None, n2=None):
     if op == "threshold":
         return True
     return False
+
+
+IMPL_OPS = {"add", "sub", "mul", "div", "rescale", "rescale_up", "rescale_down", "rescale_range", "match_precision",
+            "upscale", "downscale", "compare", "equals", "split", "negate", "abs", "remove", "pct_of", "pct_from",
+            "factor", "pct_from_amount", "pct_amount"}
+IMPL_ALIAS = {"pct_compare": "compare", "pct_equals": "equals", "pct_negate": "negate", "pct_rescale": "rescale"}
+UNDEF = "( x657272 x756e646566696e6564 )"    # ( err undefined )
+MIN64, MAX64 = -2 ** 63, 2 ** 63 - 1
+
+
+def with_prefix(line, prefix):
+    """`num <op> args` -> `num <prefix><op> args` for operations the implementation model has, else None."""
+    t = line.split(" ", 2)
+    op = IMPL_ALIAS.get(t[1], t[1])
+    if op not in IMPL_OPS:
+        return None
+    return "num " + prefix + op + (" " + t[2] if len(t) > 2 else "")
+
+
+def gen_boundary(c, quick):
+    """Outside (and across) the magnitude domain: values 2^52..2^63, MinInt64/MaxInt64, zero divisors,
+    exponents up to 70 (intPow wraps from 10^19 on and is 0 from 10^64 on)."""
+    rng = c.rng
+    out = []
+
+    def emit(op, *args):
+        out.append(("boundary", "num " + op + " " + " ".join(w(list(x)) if isinstance(x, tuple) else w(x) for x in args)))
+
+    def bv():
+        r = rng.random()
+        if r < 0.12:
+            return rng.choice([MIN64, MAX64, MIN64 + 1, 0, 0, 1, -1, T52, -T52, T52 - 1, 1 - T52, 2 ** 53, -2 ** 53, 2 ** 53 + 1, 2 ** 62, -2 ** 62])
+        if r < 0.6:
+            v = rng.getrandbits(rng.randint(52, 63))
+        elif r < 0.8:
+            v = rng.getrandbits(rng.choice([8, 16, 32, 48]))
+        else:
+            v = T52 + rng.randint(-4, 4)
+        return rng.choice([1, -1]) * min(v, MAX64)
+
+    def be():
+        r = rng.random()
+        if r < 0.6:
+            return rng.randint(0, 9)
+        if r < 0.85:
+            return rng.randint(10, 20)
+        return rng.randint(21, 70)
+    ops2 = ["add", "sub", "mul", "div", "compare", "equals", "match_precision", "remove", "pct_of", "pct_from"]
+    ops1n = ["rescale", "rescale_up", "rescale_down", "upscale", "downscale"]
+    ops1 = ["negate", "abs", "factor", "pct_from_amount", "pct_amount"]
+    N = 16000 if quick else 400000
+    for _ in range(N):
+        r = rng.random()
+        a = (bv(), be())
+        if r < 0.6:
+            op = rng.choice(ops2)
+            b = (bv() if rng.random() < 0.6 else rng.randint(-10 ** 4, 10 ** 4), be())
+            if rng.random() < 0.06:
+                b = (0, b[1])
+            if op in ("remove", "pct_from") and rng.random() < 0.1:
+                b = (-p10(b[1] % 19), b[1] % 19)      # factor 0: division by a zero amount
+            emit(op, a, b)
+        elif r < 0.8:
+            emit(rng.choice(ops1n), a, be())
+        elif r < 0.9:
+            emit(rng.choice(ops1), a)
+        else:
+            emit("split", a, rng.choice([0, 1, 2, 3, 7, -1, -3, rng.randint(-10 ** 6, 10 ** 6), bv()]))
+    # directed: the exponent boundary with in-domain magnitudes (10^18 fits, 10^19 wraps, 10^64 = 0 mod 2^64)
+    for e in (17, 18, 19, 20, 23, 37, 44, 62, 63, 64, 65, 70):
+        for v in (0, 1, -1, 5, 10 ** 15, T52 - 1, 1 - T52, 3 * 10 ** 15):
+            emit("rescale", (v, e), 0)
+            emit("mul", (v, 2), (1, e))
+            emit("mul", (1, 2), (v, e))
+            emit("div", (v, 2), (7, e))
+            emit("add", (1, 0), (v, e))
+            emit("compare", (v, 0), (1, e))
+    return out
 
 
 def gen(c, quick):
@@ -250,13 +334,15 @@ def run(c):
     if not ok:
         c.report("extraction/oracle build failed: " + out[-800:], {"machinery": "oracle"}, no_input=True)
         return
-    cases = gen(c, quick)
+    cases = gen(c, quick) + gen_boundary(c, quick)
     lines = [l for _, l in cases]
     go = run_go(lines)
     mo = run_oracle(lines)
     mism_in, mism_out, ties = [], 0, 0
+    doms = []
     for (stream, l), g, m in zip(cases, go, mo):
         d = dom(l)
+        doms.append(d)
         key = l if stream != "grid" else None
         if d:
             c.count(stream, 1, l)
@@ -266,10 +352,52 @@ def run(c):
             c.count("out-of-domain(informational)", 1)
             if g != m:
                 mism_out += 1
+    # ---- the implementation-faithful model (Num/AmountImpl.v) on a sample of the same cases and on
+    # the whole boundary stream: Go must equal it wherever it is Defined; inside the domain the guard
+    # of the exactness theorem must hold (so Go = spec = impl there)
+    budget = {"grid": 15000 if quick else 300000, "tie": 20000 if quick else 400000, "random": 25000 if quick else 600000}
+    by_stream = {}
+    for i, (stream, l) in enumerate(cases):
+        by_stream.setdefault(stream, []).append(i)
+    chosen = []
+    for stream, idx in by_stream.items():
+        if stream in budget and len(idx) > budget[stream]:
+            idx = c.rng.sample(idx, budget[stream])
+        chosen += idx
+    chosen = sorted(i for i in chosen if with_prefix(cases[i][1], "impl_"))
+    impl_out = run_oracle([with_prefix(cases[i][1], "impl_") for i in chosen])
+    guard_out = run_oracle([with_prefix(cases[i][1], "dom_") for i in chosen])
+    impl_breaks, guard_gaps, undef_out, out_defined_agree = [], [], 0, 0
+    for i, im, gd in zip(chosen, impl_out, guard_out):
+        stream, l = cases[i]
+        g = go[i]
+        if doms[i]:
+            c.count("impl-model(in-domain)", 1, l)
+            if gd != "1":
+                guard_gaps.append((l, gd))
+            if im != g:
+                impl_breaks.append((l, g, im, True))
+        else:
+            c.count("impl-model(out-of-domain)", 1, l if im != UNDEF else None)
+            if im == UNDEF:
+                undef_out += 1
+            elif im != g:
+                impl_breaks.append((l, g, im, False))
+            else:
+                out_defined_agree += 1
+    c.cov["impl_model"] = {
+        "evaluations": len(chosen),
+        "out_of_domain_model_defined_and_equal_to_go": out_defined_agree,
+        "out_of_domain_model_undefined(go_result_platform_defined,informational)": undef_out,
+        "differences_where_model_defined": len(impl_breaks),
+        "in_domain_cases_outside_theorem_guard": len(guard_gaps)}
     c.cov["rule"] = ("cases = exhaustive small-value grid x exponent pairs for every operation, directed half-unit ties "
                      "(products, quotients and rescales constructed on a tie, +-1, both signs), random operands up to 2^52 "
                      "with exponents 0-9; distinct = distinct case lines inside the property's magnitude domain; "
-                     "non-trivial = inside the domain (out-of-domain cases are informational and not counted)")
+                     "non-trivial = inside the domain (out-of-domain cases are informational and not counted); "
+                     "boundary = magnitudes 2^52..2^63, MinInt64/MaxInt64, zero divisors, exponents up to 70, compared with the "
+                     "implementation-faithful model only; impl-model streams = sample of all streams re-evaluated by "
+                     "Num/AmountImpl.v (distinct out-of-domain = model Defined)")
     c.cov["out_of_domain_differences(informational)"] = mism_out
     for s, l in cases[:: max(1, len(cases) // 5)][:5]:
         c.sample({"stream": s, "case": l})
@@ -300,6 +428,18 @@ def run(c):
                      {"case": s, "original_case": l, "implementation": g2, "specification": m2,
                       "clause": "result = exact rational rounded half away from zero at the documented precision",
                       "rerun": "echo '%s' | bin/vharness ; echo '%s' | bin/oracle" % (s, s)})
+    if impl_breaks:
+        l, g, im, ind = impl_breaks[0]
+        c.report("correspondence stream impl-model: Num/AmountImpl.v is Defined (or the case is inside the domain) and differs from the implementation on %d cases, "
+                 "e.g. `%s` implementation `%s` model `%s` (%s the magnitude domain): the model no longer transcribes num/amount.go"
+                 % (len(impl_breaks), l, g, im, "inside" if ind else "outside"),
+                 {"correspondence": "impl-model", "case": l, "implementation": g, "impl_model": im,
+                  "rerun": "echo '%s' | bin/vharness ; echo '%s' | bin/oracle" % (l, with_prefix(l, "impl_"))}, no_input=True)
+    if guard_gaps:
+        l, gd = guard_gaps[0]
+        c.report("check machinery: %d cases counted inside the domain are outside the guard of the exactness theorem, e.g. `%s` (guard `%s`)"
+                 % (len(guard_gaps), l, gd), {"machinery": "tools/props/c05.py in_domain vs Num/AmountImpl.v in_domain_*", "case": l},
+                 no_input=True)
     if not proved:
         pr = c.proof
         c.report("proof obligations of Props/C05.v no longer check: " + (pr.get("make_log") or pr.get("log", ""))[-600:],
